@@ -82,7 +82,7 @@ void scen_c17(mt_case * c) {
 
   memset(arena, GUARD, sizeof arena);
   /* inputs: attrs and funcs (arguments are addresses only) */
-  static const size_t stk[] = { 0, 16384, 32768, 65536 };
+  static const size_t stk[] = { 0, 16384, 20000, 65536 };
   for (long i = 0; i < B.n; i++) {
     if (B.have_attrs) {
       myth_thread_attr_t * at = (myth_thread_attr_t *)(arena + B.off_attrs + (size_t)i * B.attr_stride);
